@@ -5,6 +5,8 @@
 //!                 `write_buf`, `write_stream` (4 read chunkings), `write` (typed object) or by `git hash-object -w`
 //!                 (loose compression 0 / 1 / default / 9); id == git's id, exactly one file appears at the git path,
 //!                 `git cat-file --batch` reads it as the same object, `try_find`/`try_header`/`contains`/`iter` agree.
+//! * `overwrite-existing`  a file (intact or damaged as after a crash) already sits at the object's path: every write path must leave
+//!                 a file that gitoxide and git read as the object, and nothing else in the objects directory.
 //! * `truncate`    for files written by gitoxide and by git: the file is cut at EVERY length below its size (ftruncate, descending);
 //!                 `try_find` must answer Err (or None), `try_header` Err or the correct header — never data.
 use crate::util::*;
@@ -342,6 +344,82 @@ struct TruncCase {
 static TRUNCATIONS: AtomicU64 = AtomicU64::new(0);
 static TRUNC_HEADER_OK: AtomicU64 = AtomicU64::new(0);
 
+
+// ---------------------------------------------------------------------------------------------------------------
+/// A file already sits at the object's path (intact, or damaged as after a crash); writing the object must leave a file that
+/// git and gitoxide read as the object.
+#[derive(Serialize, Deserialize, Hash, Clone, Debug)]
+struct OverCase {
+    obj: ObjCase,
+    /// "git" | "gix" (intact copies) | "half" | "minus1" | "empty" | "garbage"
+    pre: String,
+}
+static HEALED: AtomicU64 = AtomicU64::new(0);
+
+fn eval_overwrite(ids: &Ids, c: &OverCase) -> Verdict {
+    use std::os::unix::fs::PermissionsExt;
+    let kind = KINDS[c.obj.kind as usize];
+    let Some(data) = content(kind, c.obj.size, c.obj.fill) else { return ok_trivial("not-constructible") };
+    let Some(want_id) = ids.0.get(&(c.obj.kind, c.obj.size, c.obj.fill)) else { vkit::machinery!("no git id precomputed for {c:?}") };
+    let dir = scratch::Dir::new("c11o");
+    let (repo, objects) = make_repo(&dir);
+    let rel = format!("{}/{}", &want_id[..2], &want_id[2..]);
+    let target = objects.join(&rel);
+    // --- pre-state ---
+    if c.pre == "git" {
+        let id = write_object("git", &repo, &objects, kind, &data)?;
+        if id.to_string() != *want_id {
+            vkit::machinery!("git wrote {id}, expected {want_id}");
+        }
+    } else {
+        // an intact file as gitoxide writes it (made in a side directory), then damaged as requested
+        let side = scratch::Dir::new("c11os");
+        let (srepo, sobjects) = make_repo(&side);
+        let id = write_object("buf", &srepo, &sobjects, kind, &data)?;
+        if id.to_string() != *want_id {
+            return bad("id", format!("write_buf writes {id}, git computes {want_id}"));
+        }
+        let intact = std::fs::read(sobjects.join(&rel)).unwrap_or_else(|e| vkit::machinery!("read side copy: {e}"));
+        let pre: Vec<u8> = match c.pre.as_str() {
+            "gix" => intact,
+            "half" => intact[..intact.len() / 2].to_vec(),
+            "minus1" => intact[..intact.len() - 1].to_vec(),
+            "empty" => Vec::new(),
+            "garbage" => enumerate::lcg_bytes(intact.len(), 77),
+            p => vkit::machinery!("unknown pre-state {p}"),
+        };
+        std::fs::create_dir_all(target.parent().unwrap()).unwrap_or_else(|e| vkit::machinery!("mkdir: {e}"));
+        write_file(&target, &pre);
+        // object files are read-only
+        let _ = std::fs::set_permissions(&target, std::fs::Permissions::from_mode(0o444));
+    }
+    let store = loose::Store::at(&objects, SHA1);
+    let id = ObjectId::from_hex(want_id.as_bytes()).unwrap_or_else(|e| vkit::machinery!("bad hex: {e}"));
+    let damaged = !matches!(c.pre.as_str(), "git" | "gix");
+    if damaged {
+        // harness sanity: the damaged pre-state really is unreadable
+        let mut buf = Vec::new();
+        if matches!(store.try_find(&id, &mut buf), Ok(Some(_))) {
+            vkit::machinery!("pre-state {} of {c:?} reads as an object", c.pre);
+        }
+    }
+    // --- the write ---
+    let got = write_object(&c.obj.path, &repo, &objects, kind, &data)?;
+    if got != id {
+        return bad("id", format!("{} writes the object as {got}, git computes {want_id}", c.obj.path));
+    }
+    let files = list_files(&objects);
+    if files != vec![rel.clone()] {
+        return bad("files", format!("objects directory holds {files:?} after {} over a {} file, expected only {rel}", c.obj.path, c.pre));
+    }
+    read_checks(&store, &id, kind, &data).map_err(|e| format!("{e} [after {} over a pre-existing {} file]", c.obj.path, c.pre))?;
+    git_reads(&repo, want_id, kind, &data).map_err(|e| format!("{e} [after {} over a pre-existing {} file]", c.obj.path, c.pre))?;
+    if damaged {
+        HEALED.fetch_add(1, Ordering::Relaxed);
+    }
+    ok(format!("over-{}:{}:{}:{}", c.pre, c.obj.path, kind_name(kind), size_class(kind, c.obj.size)))
+}
+
 fn eval_truncate(c: &TruncCase) -> Verdict {
     let kind = KINDS[c.obj.kind as usize];
     let Some(data) = content(kind, c.obj.size, c.obj.fill) else { return ok_trivial("not-constructible") };
@@ -412,6 +490,8 @@ pub fn run(run: &'static Run) {
          thorough: all kinds 2^k(+-1) for 128,192,256,1024,4096,8192,16384,32768,65536,131072,2^20} x fill {compressible (zeros / 'a'), incompressible LCG bytes (printable for non-blobs)} \
          x write path {write_buf, write_stream with reads of all/1/7/4096 bytes (1-byte reads up to 70000 bytes), write(typed object) — one case runs all six and lets git read every distinct file they produce —, \
          git hash-object -w with core.looseCompression default/0 (quick) + 1/9 (thorough)}; \
+         overwrite-existing: reduced contents (blobs of 0, header+body==64, 4096, 70000 bytes and a 256-byte commit; thorough also 256/32768-byte blobs, a tree, a tag) x write path {write_buf, write_stream all/1 (thorough also 7/4096), typed} \
+         x file already at the object path {intact by git, intact by gitoxide, cut at len/2, cut by 1 byte, empty, garbage of the same length}: after the write the id is git's, only that file exists, try_find/try_header/contains/iter and git cat-file read the object; \
          truncate: for the files written by write_buf, git (default) and git level 0: EVERY length 0..file_len-1 (files of objects > 9000 bytes that do not compress are split into 16 ranges; such big files are cut at every length for all blob sizes <= 131073 and for trees/commits/tags of 32768 and 70000 bytes in thorough, only for blobs of 32768 and 70000 bytes written by write_buf/git in quick; skipped above 140000 bytes); \
          non-trivial = object written, id == git's, read back by git and gitoxide / a non-empty range of truncations all refused",
     );
@@ -452,6 +532,43 @@ pub fn run(run: &'static Run) {
         |c| eval_write_read(ids, c),
     );
     lap("write-read");
+    // reduced content set for the pre-existing-file sub-check: blobs of 0 / header+body==64 / 4096 / 70000 bytes, one commit
+    // (thorough: also 256 and 32768 bytes and a tree and a tag)
+    let hb = sizes_for(Kind::Blob, false).into_iter().find(|&sz| header_len(Kind::Blob, sz) + sz == 64).unwrap_or(57);
+    let mut over: Vec<(u8, usize, u8)> = Vec::new();
+    for &(kind, size, fill) in &contents {
+        let blob_sizes: &[usize] = if thorough { &[0, 256, 4096, 32768, 70_000] } else { &[0, 4096, 70_000] };
+        let keep = match kind {
+            0 => (size == hb || blob_sizes.contains(&size)) && !(size == 0 && fill == 1),
+            2 => size == 256 && fill == 1,
+            _ => thorough && size == 256 && fill == 1,
+        };
+        if keep {
+            over.push((kind, size, fill));
+        }
+    }
+    run.cov("overwrite_contents", over.len());
+    run.sub_with(
+        "overwrite-existing",
+        vkit::Opts::default().chunk(128),
+        |emit| {
+            // damaged pre-states first
+            for pre in ["half", "minus1", "empty", "garbage", "gix", "git"] {
+                for &(kind, size, fill) in &over {
+                    for path in GIX_PATHS {
+                        if run.quick() && (path == "stream-7" || path == "stream-4096") {
+                            continue;
+                        }
+                        emit(OverCase { obj: ObjCase { kind, size, fill, path: path.to_string() }, pre: pre.to_string() });
+                    }
+                }
+            }
+        },
+        |c| eval_overwrite(ids, c),
+    );
+    lap("overwrite-existing");
+    run.cov("damaged_files_replaced_by_a_write", HEALED.load(Ordering::Relaxed));
+    run.require("writes over damaged pre-existing files were evaluated", HEALED.load(Ordering::Relaxed) > 0);
     run.sub_with(
         "truncate",
         vkit::Opts::default().chunk(128),
